@@ -295,6 +295,7 @@ def run(F, res, tier):
     slot_coverage(F, res, pure, kinds)
     literal_lexemes(F, res, R)
     blanks_are_trivia(F, res, R)
+    string_escapes(F, res)
     delimiters_belong_to_their_node(F, res)
 
 
@@ -584,6 +585,63 @@ def blanks_are_trivia(F, res, R, rule="G8"):
             pos += best[1]
         res.ob(rule, "blank/%s" % lx.encode("unicode_escape").decode(), "the blank %r is lexed as trivia" % lx, ok and bool(trivia),
                where="crates/syntax/src/kind.rs", how="tokens: %s" % kinds)
+
+
+def string_escapes(F, res, rule="G9"):
+    """G9: where a string literal ends. The callback that lexes the rest of a string is a two-state machine over characters
+    (after a backslash / not) and three character classes (`"`, `\\`, anything else). Its transition table is read off the MIR by
+    constant folding the loop body once per (state, class) - 6 paths - and compared with Gleam's: a quote ends the string unless
+    it is escaped; a backslash escapes exactly the next character, also another backslash; everything else leaves the escaped
+    state. A wrong entry ends `"C:\\\\"` at the wrong quote (or never): the following tokens of a well-formed program are
+    lexed from inside a string."""
+    from lib import cfold as CF
+    f = F.fn("syntax::lexer::lex_string")
+    d = FL.Defs(f)
+    # the character of the current step: a char local taken out of the Some(..) that a `next()` of a char iterator answered
+    cands = []
+    for b, i, s_ in f.stmts():
+        if s_["k"] == "assign" and not s_["place"]["p"] and f.local_ty(s_["place"]["l"]) == "char":
+            o = d.origin(s_["place"]["l"])
+            base = o
+            while base.get("k") == "field":
+                base = base["base"]
+            if base.get("k") == "call" and FL.short(callee(base["t"]) or callee_def(base["t"]) or "").endswith("::next"):
+                cands.append((b, s_["place"]["l"]))
+    heads = {hd for tl, hd in f.back_edges()}
+    if not cands or not heads:
+        res.anchor_missing(rule, "the per-character loop of lex_string")
+        return
+    start, cl = cands[0]
+    # the state: a bool local that is written inside the loop and read in it
+    loop = set()
+    for tl, hd in f.back_edges():
+        loop |= f.natural_loop(tl, hd)
+    states = sorted({s_["place"]["l"] for b, i, s_ in f.stmts() if b in loop and s_["k"] == "assign" and not s_["place"]["p"] and
+                     f.local_ty(s_["place"]["l"]) == "bool" and any(dd[0] not in loop for dd in d.defs.get(s_["place"]["l"], []))})
+    if len(states) != 1:
+        res.anchor_missing(rule, "exactly one loop-carried bool state in lex_string (found %d)" % len(states))
+        return
+    st = states[0]
+    classes = (("quote", 34), ("backslash", 92), ("other", 97), ("newline", 10), ("non-ascii", 0x1F4A3))
+    want = {(0, "quote"): "end", (0, "backslash"): ("go", 1), (1, "quote"): ("go", 0), (1, "backslash"): ("go", 0)}
+    table, bad = {}, []
+    for e in (0, 1):
+        for cname, cv in classes:
+            why, bb, env = CF.run(f, start, {cl: cv, st: e}, stop=heads, fixed={cl})
+            if why == "stop":
+                got = ("go", env.get(st))
+            elif why == "return":
+                got = "end" if env.get(0) == 1 else ("fail", env.get(0))
+            else:
+                got = ("undecided", bb)
+            table[(e, cname)] = got
+            exp = want.get((e, cname), ("go", 0))
+            if got != exp:
+                bad.append("after %s, %s: %s (Gleam: %s)" % ("a backslash" if e else "an ordinary character", cname, got, exp))
+    res.analysed["string lexer transitions"] = {"%d/%s" % k: str(v) for k, v in sorted(table.items())}
+    res.ob(rule, "string/transitions", "the string lexer ends a literal at the first quote that is not escaped, and a backslash escapes exactly the "
+           "next character (6 transitions + controls, constant-folded from lex_string)", not bad, where=f.loc(),
+           how="; ".join(bad) if bad else "table: %s" % {"%d/%s" % k: v for k, v in sorted(table.items())})
 
 
 def delimiters_belong_to_their_node(F, res, rule="G7"):
